@@ -188,53 +188,19 @@ func c15R1(c *Ctx) {
 			}
 		}
 	}
-	// consumers of the limited readers: their errors propagate
-	for _, l := range limited {
-		lv := l.Value()
-		if lv == nil {
-			continue
-		}
-		f := l.Parent()
-		found := 0
-		for a := range Aliases(lv) {
-			if a.Referrers() == nil {
+	// readers of a response body (limited or not): their errors propagate
+	for _, rel := range c15Pkgs {
+		for _, f := range c.P.FuncsOfPkg(rel) {
+			if len(c13FieldLoads(f, c13PkgHTTP, "Response", "Body", nil)) == 0 {
 				continue
 			}
-			for _, use := range *a.Referrers() {
-				call, ok := use.(*ssa.Call)
-				if !ok {
-					continue
-				}
-				switch CalleeName(call) {
-				case "encoding/json.NewDecoder":
-					for d := range Aliases(call) {
-						if d.Referrers() == nil {
-							continue
-						}
-						for _, u2 := range *d.Referrers() {
-							if dec, ok := u2.(*ssa.Call); ok && CalleeName(dec) == "(*encoding/json.Decoder).Decode" {
-								found++
-								r := ErrFlow(dec, ErrFlowOpts{})
-								c.Check(RE, FnName(f)+"|Decode", dec.Pos(), r.OK, r.How+r.Detail)
-							}
-						}
-					}
-				case "io.ReadAll":
-					found++
-					r := ErrFlow(call, ErrFlowOpts{})
-					c.Check(RE, FnName(f)+"|io.ReadAll", call.Pos(), r.OK, r.How+r.Detail)
-				default:
-					if g := StaticCallee(call); g != nil && isLimiter[g] {
-						continue
-					}
-					c.Undecided(RE, FnName(f)+"|"+CalleeName(call), call.Pos(), "limited reader handed to a consumer this rule does not know")
-				}
+			for _, call := range CallsTo(f, "(*encoding/json.Decoder).Decode", "io.ReadAll") {
+				r := ErrFlow(call, ErrFlowOpts{})
+				c.Check(RE, FnName(f)+"|"+CalleeName(call), call.Pos(), r.OK, r.How+r.Detail)
 			}
 		}
-		if found == 0 && !isLimiter[f] {
-			c.Undecided(RE, FnName(f)+"|no-consumer", l.Pos(), "no Decode / ReadAll of the limited reader found in the same function")
-		}
 	}
+	_ = limited
 
 	// descriptor-sized reads behind limitSize
 	sls := c15SizeLimiters(c.P)
